@@ -153,8 +153,17 @@ pub fn check(case: &Case, ctx: &mut CaseCtx) -> CaseResult {
         return Ok(());
     }
     // implemented levels and "no level given": must work
+    let odd_name = std::str::from_utf8(name_bytes).is_err();
     if r.code != Some(0) {
         let left = zst_path.exists();
+        if odd_name && !r.panicked && !(left && !stale) {
+            // a tool may decline a name that is not UTF-8 - through its exit status, without a panic
+            // and without leaving something that looks like a result: that is the property's own
+            // rule for operations that cannot be carried out
+            ctx.feat("name:not_utf8_declined_cleanly");
+            ctx.set_hash_bytes(&[format!("{case:?}").as_bytes()]);
+            return Ok(());
+        }
         fail!(if r.panicked && left { "panic_leaves_output" } else { "compress_failed" }, "compress {:?} of a {}-byte file fails with status {:?} (panicked: {}, `{zst_name_s}` left behind: {left}): {}", case.level, data.len(), r.code, r.panicked, tail(&r.stderr));
     }
     let archive = std::fs::read(&zst_path).map_err(|e| Failure::new("output_missing", format!("compress exits 0 but `{zst_name_s}` cannot be read: {e}")))?;
@@ -194,6 +203,11 @@ pub fn check(case: &Case, ctx: &mut CaseCtx) -> CaseResult {
     let r2 = run(&dir, &dargs)?;
     match case.scenario {
         Scenario::RoundTrip => {
+            if odd_name && r2.code != Some(0) && !r2.panicked {
+                ctx.feat("name:not_utf8_declined_cleanly");
+                ctx.set_hash_bytes(&[format!("{case:?}").as_bytes()]);
+                return Ok(());
+            }
             ensure!(r2.code == Some(0), "decompress_failed", "decompress of a fresh archive fails with status {:?}: {}", r2.code, tail(&r2.stderr));
             let back = std::fs::read(&restored_path).map_err(|e| Failure::new("output_missing", format!("decompress exits 0 but {} cannot be read: {e}", restored_path.display())))?;
             ensure!(back == data, "roundtrip_differs", "restored file differs from the original ({} vs {} bytes)", back.len(), data.len());
